@@ -148,6 +148,17 @@ Theorem view_is_sorted_window : forall (A : Type) (le : A -> A -> Prop) (d : A) 
   Permutation (view_of d xs xinds il iu) (slice il iu xs).
 Proof. intros A le d. exact (view_sorted_window le d). Qed.
 
+(* the (x, w) pairs that cdf / predict_quantiles accumulate are exactly the pairs of the window, each once,
+   taken in ascending order of x (so the cdf starts at the smallest x of the window) *)
+Theorem view_pairs_are_sorted_window : forall m Sinv v ymean pc1_e (db : list entry) xinds yobs x2 il iu ws,
+  weights m Sinv v ymean pc1_e db yobs x2 = (il, iu, ws) ->
+  (il <= iu <= length db)%nat ->
+  Permutation xinds (seq 0 (length db)) ->
+  StronglySorted Rle (take_idx 0 (map snd db) xinds) ->
+  Permutation (view_xw m Sinv v ymean pc1_e db xinds yobs x2) (window_xw m Sinv v ymean pc1_e db yobs x2) /\
+  nondecreasing (map fst (view_xw m Sinv v ymean pc1_e db xinds yobs x2)).
+Proof. exact view_xw_is_sorted_window. Qed.
+
 (* ---------------------------------------------------------------- cdf and quantiles *)
 
 (* cdf: non-decreasing, within [0, 1], ends at exactly 1, and its k-th value is the weight share of the first
@@ -229,6 +240,7 @@ Print Assumptions window_is_filter.
 Print Assumptions searchsorted_rank_invariant.
 Print Assumptions pruning_error.
 Print Assumptions view_is_sorted_window.
+Print Assumptions view_pairs_are_sorted_window.
 Print Assumptions cdf_monotone_ends_at_one.
 Print Assumptions quantiles_monotone_bounded.
 Print Assumptions nan_when_no_weight.
